@@ -117,6 +117,10 @@ def run_case(case):
                     else:
                         got = names_rows(db.run(subrel))
                 except Exception as exc:  # noqa: BLE001
+                    if has_mat and multi.prune_order_loss(subrel, exc):
+                        c["process_time_order_refusal_known_finding"] = c.get("process_time_order_refusal_known_finding", 0) + 1
+                        out["skip"] = "process_time_order_refusal"
+                        return out
                     out["violations"].append({"kind": "execution_raised", "detail": f"{exc_str(exc)} for {model.show(sub)} tree {short(subrel, 300)}"})
                     return out
                 if child_gate:
